@@ -24,9 +24,10 @@ def gen_trees(rng):
             if trees and k < 0.55:
                 ents[name] = (0o40000, rng.choice(trees[-3:] + trees))
             elif k < 0.75:
-                ents[name] = (rng.choice([0o100644, 0o100755]), rng.choice(blobs))
+                # canonical and legal non-canonical regular-file modes (old histories have 100664 etc.)
+                ents[name] = (rng.choice([0o100644, 0o100755, 0o100664, 0o100600, 0o100775, 0o100444, 0o100640]), rng.choice(blobs))
             elif k < 0.85:
-                ents[name] = (0o120000, rng.choice(blobs))
+                ents[name] = (rng.choice([0o120000, 0o120000, 0o120777]), rng.choice(blobs))
             elif k < 0.93:
                 ents[name] = (0o160000, bytes(rng.randrange(256) for _ in range(20)))
             else:
